@@ -21,6 +21,7 @@ type half struct {
 	cap     int
 	wclosed bool // writer shut down its write side: reader sees EOF after draining
 	rclosed bool // reader closed its read side: writes fail
+	reset   bool // the stream was reset: reads and writes fail with ECONNRESET
 	total   int64
 }
 
@@ -58,9 +59,11 @@ func passed(dl int64) bool { return dl != 0 && vsched.NowNS() >= dl }
 
 func (c *Conn) Read(b []byte) (int, error) {
 	vsched.PointIf(func() bool {
-		return len(c.in.buf) > 0 || c.in.wclosed || c.closed || c.in.rclosed || passed(c.rdl)
+		return len(c.in.buf) > 0 || c.in.wclosed || c.closed || c.in.rclosed || passed(c.rdl) || c.in.reset
 	}, c.Name+".Read")
 	switch {
+	case c.in.reset && !c.closed:
+		return 0, &net.OpError{Op: "read", Net: "vnet", Err: syscall.ECONNRESET}
 	case c.closed || c.in.rclosed:
 		return 0, &net.OpError{Op: "read", Net: "vnet", Err: net.ErrClosed}
 	case passed(c.rdl):
@@ -84,9 +87,11 @@ func (c *Conn) Write(b []byte) (int, error) {
 	n := 0
 	for {
 		vsched.PointIf(func() bool {
-			return len(c.out.buf) < c.out.cap || c.closed || c.out.wclosed || c.out.rclosed || passed(c.wdl) || c.WriteErr != nil
+			return len(c.out.buf) < c.out.cap || c.closed || c.out.wclosed || c.out.rclosed || passed(c.wdl) || c.WriteErr != nil || c.out.reset
 		}, c.Name+".Write")
 		switch {
+		case c.out.reset && !c.closed:
+			return n, &net.OpError{Op: "write", Net: "vnet", Err: syscall.ECONNRESET}
 		case c.WriteErr != nil:
 			return n, &net.OpError{Op: "write", Net: "vnet", Err: c.WriteErr}
 		case c.closed:
@@ -184,6 +189,15 @@ func (c *Conn) SetWriteDeadline(t time.Time) error {
 	}
 	c.setDL(&c.wdl, t)
 	return nil
+}
+
+// Reset aborts the connection from this end: the peer's pending and future
+// reads and writes fail with ECONNRESET and unread data is discarded.
+func (c *Conn) Reset() {
+	vsched.Point(c.Name + ".Reset")
+	c.closed = true
+	c.in.reset, c.out.reset = true, true
+	c.in.buf, c.out.buf = nil, nil
 }
 
 // IsClosed reports whether Close was called on this end.
